@@ -261,8 +261,223 @@ Proof.
   induction more as [|e r IH]; intros done x HD HL; cbn [run].
   - cbn. rewrite app_nil_r. exists x. auto.
   - destruct (step3 T done e x HD HL) as (x1 & W & HD1 & HL1).
-    specialize (IH (done ++ [e]) x1). rewrite final_snoc in IH. rewrite <- trk_run_snoc' .
+    specialize (IH (done ++ [e]) x1). rewrite final_snoc in IH. rewrite trk_run_snoc' in W, IH.
     destruct (step (final T done) e) as [s1 o]. cbn [fst snd] in *.
     destruct (IH HD1 HL1) as (x' & W2 & HD2). rewrite <- app_assoc in W2, HD2. cbn [app] in W2, HD2.
     destruct (run s1 r) as [s2 os]. cbn [snd walk] in *. unfold on_ev3 at 1. rewrite W. exists x'. auto.
+Qed.
+
+(* ---- W2: a closed producer has ended ---------------------------------------------------------------------- *)
+Definition W2 (ps : list prod) : Prop := forall p, In p ps -> closed p = true -> p_fin p = true.
+Definition PW (sn : list nat) (g : ghost) (ins : list nat) (ps : list prod) : Prop := Core g ins ps /\ W2 ps.
+
+Lemma load_all_rem ps : forall rem ys fs, load_all ps = (rem, ys, fs) ->
+  forall p, In p rem -> exists p0, In p0 ps /\ p = p_wait p0 /\ p_fin p0 = false.
+Proof.
+  induction ps as [|p0 r IH]; intros rem ys fs E p Hin; cbn [load_all] in E.
+  - inversion E; subst. destruct Hin.
+  - destruct (load_all r) as [[rem0 ys0] fs0] eqn:Er. destruct (p_fin p0) eqn:Ef; inversion E; subst; clear E.
+    + destruct (IH _ _ _ eq_refl p Hin) as (q0 & A & B & C). exists q0. split; [right; exact A|auto].
+    + destruct Hin as [<-|Hin]; [exists p0; split; [left; reflexivity|auto]|].
+      destruct (IH _ _ _ eq_refl p Hin) as (q0 & A & B & C). exists q0. split; [right; exact A|auto].
+Qed.
+
+Lemma fin_allAY_end a e : forallb is_AY a = true -> (e = AF \/ e = AE) -> finishes false (a ++ [e]) = true.
+Proof.
+  intros H He. induction a as [|x r IH]; cbn.
+  - destruct He; subst; reflexivity.
+  - destruct x; try discriminate. cbn in H. apply IH, H.
+Qed.
+
+Lemma feed_closed_fin a p : wf_prod p -> closed p = false -> closed (feed a p) = true -> p_fin (feed a p) = true.
+Proof.
+  intros [_ Ho] Hc. destruct (Ho Hc) as [HA Hs]. unfold p_fin. destruct a; cbn [feed closed single acts].
+  - intros E. rewrite E. rewrite (Hs E). reflexivity.
+  - intros _. destruct (single p) eqn:Es; [rewrite (Hs eq_refl); reflexivity|apply fin_allAY_end; auto].
+  - destruct (single p) eqn:Es; [intros E; rewrite Hc in E; discriminate|].
+    cbn [closed single acts]. intros _. apply fin_allAY_end; auto.
+Qed.
+
+Lemma step_PW s e : InvP PW s -> InvP PW (fst (step s e)).
+Proof.
+  intros H. apply (step_postP PW true); auto.
+  - intros sn g ins ps ps' Hp [A B]. split; [eapply Core_permP; eauto|]. intros p Hin. apply B. eapply Permutation_in; [apply Permutation_sym; exact Hp|exact Hin].
+  - intros sn g ins ps1 ps rem ys fs [A B] E. split; [eapply Core_load; eauto|].
+    intros p Hin Hc. apply in_app_or in Hin as [Hin|Hin]; [apply B; [apply in_or_app; auto|exact Hc]|].
+    destruct (load_all_rem _ _ _ _ E p Hin) as (p0 & Hin0 & -> & Hnf). cbn in Hc.
+    rewrite (B p0 (in_or_app _ _ _ (or_intror Hin0)) Hc) in Hnf. discriminate.
+  - intros sn g ins ps [A B]. split; [apply Core_deliver; [exact A|intros x []]|exact B].
+  - intros _ sn g ins ps [A B]. split; [apply Core_deliver; [exact A|apply incl_refl]|exact B].
+  - intros sn g ins ps p k t b [A B] _. split; [apply Core_put; exact A|].
+    intros p0 Hin Hc. apply in_app_or in Hin as [Hin|[<-|[]]]; [apply B; auto|].
+    destruct k.
+    + apply (proj1 (imm_prod_loads p (Plain x) eq_refl)).
+    + apply (proj1 (imm_prod_loads p (SyncList xs) eq_refl)).
+    + apply (proj1 (imm_prod_loads p (SyncIter xs failpos) eq_refl)).
+    + cbn in Hc. discriminate.
+    + cbn in Hc. discriminate.
+  - intros sn g ins ps n a [A B] Hex. split; [apply Core_feed; assumption|].
+    intros p' Hin Hc. apply in_map_iff in Hin as (p & <- & Hin). unfold feed_if in *.
+    destruct ((pid p =? n) && accepts p) eqn:E; [|apply B; assumption].
+    apply andb_prop in E as [_ E]. unfold accepts in E. apply negb_true_iff in E.
+    apply feed_closed_fin; [apply (c_wf _ _ _ A), Hin|exact E|exact Hc].
+  - intros sn g g' ins ps E1 E2 E3 [A B]. split; [eapply Core_ext; eauto|exact B].
+  - intros sn g ins ps [A _]. apply (c_ins _ _ _ A).
+Qed.
+
+Lemma final_PW T evs : InvP PW (final T evs).
+Proof.
+  induction evs as [|e r IH] using rev_ind.
+  - intros _. split; [apply (init_inv T); reflexivity|intros p []].
+  - rewrite final_snoc. apply step_PW, IH.
+Qed.
+
+(* ---- UP: the producers a daemon is parked on are unfinished ------------------------------------------------ *)
+Definition UPd (d : daemon) : Prop :=
+  match d with
+  | DGather _ ld _ => ld <> [] /\ forall p, In p ld -> p_fin p = false
+  | DLoadOne _ p => p_fin p = false
+  | _ => True
+  end.
+Definition UPr (r : state * list obs) : Prop := UPd (dm (fst r)).
+
+Lemma p_wait_unfin p : p_fin (p_wait p) = false.
+Proof. unfold p_fin, p_wait; cbn. destruct (single p); reflexivity. Qed.
+
+Lemma run_func0_UP s ins : UPr (run_func0 s ins).
+Proof. unfold UPr, run_func0, release. destruct ins; cbn; auto. Qed.
+
+Lemma continue_round_UP s ins ld : UPr (continue_round s ins ld).
+Proof.
+  unfold continue_round. destruct (load_all (ld ++ q s)) as [[rem ys] fs] eqn:El.
+  assert (Hrem : forall p, In p rem -> p_fin p = false).
+  { intros p Hin. destruct (load_all_rem _ _ _ _ El p Hin) as (p0 & _ & -> & _). apply p_wait_unfin. }
+  destruct (unfinished s - length (q s) =? 0); destruct rem as [|p0 rem]; cbn [andb];
+    try destruct (wants_cancel _); try apply run_func0_UP; unfold UPr; cbn [fst dm set_dm UPd]; try exact I;
+    (split; [discriminate|exact Hrem]).
+Qed.
+
+Lemma start_round_UP s : UPr (start_round s).
+Proof. unfold start_round. destruct (q s); [exact I|apply continue_round_UP]. Qed.
+
+Lemma run_func_UP s ins : UPr (run_func s ins).
+Proof.
+  unfold run_func. destruct ins; [|exact I]. destruct (release s) as [s1 o1]. unfold end_round.
+  pose proof (start_round_UP s1) as H. destruct (start_round s1). exact H.
+Qed.
+
+Lemma load_one_UP s ins p : UPr (load_one s ins p).
+Proof. unfold load_one. destruct (p_fin p); [apply continue_round_UP|unfold UPr; cbn [fst dm set_dm UPd]; apply (p_wait_unfin p)]. Qed.
+
+Lemma after_gather_UP s ins g : UPr (after_gather s ins g).
+Proof. destruct g; cbn [after_gather]; [exact I|apply load_one_UP|apply run_func_UP|apply run_func_UP]. Qed.
+
+Lemma step_UP s e : UPd (dm s) -> UPd (dm (fst (step s e))).
+Proof.
+  intros HU. unfold step. destruct (is_dead s); [exact HU|].
+  assert (PutCase : forall p k c, UPr (do_put s p k c)).
+  { intros p k c. unfold do_put. destruct (existsb (Nat.eqb p) (seen s)); [exact HU|].
+    match goal with |- UPr (on_put ?x) => set (s4 := x); assert (E4 : dm s4 = dm s) by (unfold s4; destruct c; reflexivity) end.
+    clearbody s4. unfold on_put. rewrite E4. destruct (dm s) as [|ins ld g|ins d|ins pl|ins|] eqn:Ed; try (unfold UPr; cbn; rewrite ?E4, ?Ed; exact HU).
+    - apply start_round_UP.
+    - destruct g as [d|p0| |]; try (unfold UPr; cbn; rewrite ?E4, ?Ed; exact HU).
+      destruct (q s4); [unfold UPr; cbn; rewrite ?E4, ?Ed; exact HU|unfold UPr; cbn; exact HU].
+    - destruct (q s4); [unfold UPr; cbn; rewrite ?E4, ?Ed; exact HU|apply load_one_UP]. }
+  assert (FeedCase : forall n a, UPr (do_feed s n a)).
+  { intros n a. unfold do_feed. destruct (negb (open_here s n)); [exact HU|].
+    destruct (dm s) as [|ins ld g|ins d|ins pl|ins|] eqn:Ed; try (unfold UPr; cbn; rewrite ?Ed; exact HU).
+    - destruct (load_all (map (feed_if n a) ld)) as [[rem ys] fs] eqn:El. destruct rem as [|p0 rem]; [apply after_gather_UP|].
+      unfold UPr; cbn. split; [discriminate|]. intros p Hin. destruct (load_all_rem _ _ _ _ El p Hin) as (q0 & _ & -> & _). apply p_wait_unfin.
+    - destruct ((pid pl =? n) && accepts pl) eqn:E; [apply load_one_UP|]. unfold UPr; cbn. rewrite ?Ed. exact HU. }
+  assert (EndCase : forall ok fc, UPr (do_fn_end s ok fc)).
+  { intros ok fc. unfold do_fn_end. destruct (dm s) as [|ins ld g|ins d|ins pl|ins|] eqn:Ed; try (unfold UPr; cbn; rewrite ?Ed; exact HU). destruct ok.
+    - match goal with |- context [release ?x] => destruct (release x) as [s2 o1] end. destruct fc.
+      + match goal with |- context [continue_round ?a ?b ?c] => pose proof (continue_round_UP a b c) as H; destruct (continue_round a b c) end. exact H.
+      + unfold end_round. pose proof (start_round_UP s2) as H. destruct (start_round s2). exact H.
+    - pose proof (continue_round_UP s ins []) as H. destruct (continue_round s ins []). exact H. }
+  destruct e; try apply PutCase; try apply FeedCase; try apply EndCase; try exact HU; try exact I.
+  - unfold do_advance. destruct (dm s) as [|ins ld g|ins d|ins pl|ins|] eqn:Ed; try (cbn; rewrite ?Ed; exact HU).
+    + destruct g as [d|p0| |]; try (cbn; rewrite ?Ed; exact HU). destruct (d <=? now s + dt)%N; cbn; rewrite ?Ed; exact HU.
+    + destruct (d <=? now s + dt)%N; [|cbn; rewrite ?Ed; exact HU].
+      match goal with |- context [run_func ?a ?b] => pose proof (run_func_UP a b) as H; destruct (run_func a b) end. exact H.
+  - unfold do_wait. destruct (existsb (Nat.eqb w) (wseen s)); [exact HU|].
+    unfold wait_core. cbn [unfinished set_gh set_wseen dm evset]. destruct (unfinished s =? 0); [|exact HU].
+    destruct (dm s) as [|ins ld g|ins d|ins pl|ins|] eqn:Ed; try (solve [destruct (evset s); cbn; rewrite ?Ed; exact HU]).
+    + destruct g as [d|p0| |]; try (solve [destruct (evset s); cbn; rewrite ?Ed; exact HU]). destruct cancel; cbn; rewrite ?Ed; exact HU.
+    + destruct cancel; [apply run_func_UP|cbn; rewrite ?Ed; exact HU].
+Qed.
+
+Lemma final_UP T evs : UPd (dm (final T evs)).
+Proof.
+  induction evs as [|e r IH] using rev_ind; [exact I|]. rewrite final_snoc. apply step_UP, IH.
+Qed.
+
+(* ---- a script that lets the buffer settle: everything handed over is delivered ------------------------------ *)
+Lemma settle_tail_inv T tl : settle_tail T tl = true -> exists d, tl = tail d /\ (T <= d)%N.
+Proof.
+  unfold settle_tail, tail.
+  destruct tl as [|e1 tl]; [discriminate|]. destruct e1; try discriminate.
+  destruct tl as [|e2 tl]; [discriminate|]. destruct e2; try discriminate.
+  destruct tl as [|e3 tl]; [discriminate|]. destruct e3; try discriminate.
+  destruct tl as [|e4 tl]; [|discriminate].
+  intros H. exists dt. split; [reflexivity|]. apply N.leb_le. exact H.
+Qed.
+
+Lemma no_open_calm T evs :
+  is_dead (final T evs) = false -> (forall n, has_open n (prods (final T evs)) = false) ->
+  parked (dm (final T evs)) = true /\ all_fin (q (final T evs)).
+Proof.
+  intros Hd Hno. set (s := final T evs) in *.
+  destruct (final_PW T evs Hd) as [_ HW2]. fold s in HW2.
+  assert (Hacc : forall p, In p (prods s) -> accepts p = false).
+  { intros p Hin. destruct (accepts p) eqn:E; [|reflexivity]. specialize (Hno (pid p)).
+    assert (has_open (pid p) (prods s) = true) by (apply existsb_exists; exists p; rewrite Nat.eqb_refl, E; auto). congruence. }
+  assert (Hopenfin : forall p, In p (prods s) -> p_fin p = true).
+  { intros p Hin. apply HW2; [exact Hin|]. specialize (Hacc p Hin). unfold accepts in Hacc. apply negb_false_iff in Hacc. exact Hacc. }
+  pose proof (final_UP T evs) as HU. fold s in HU. split.
+  - unfold prods in Hopenfin. destruct (dm s) as [|ins ld g|ins d|ins p|ins|] eqn:Ed; try reflexivity; cbn [UPd dprods] in *.
+    + destruct HU as [Hne Hun]. destruct ld as [|p0 ld]; [contradiction|].
+      specialize (Hun p0 (or_introl eq_refl)). rewrite (Hopenfin p0) in Hun; [discriminate|].
+      apply in_or_app. right. left. reflexivity.
+    + rewrite (Hopenfin p) in HU; [discriminate|]. apply in_or_app. right. left. reflexivity.
+  - intros p Hin. apply Hopenfin. unfold prods. apply in_or_app. auto.
+Qed.
+
+Lemma settled_delivered T evs :
+  settled T evs = true -> incl (off (gh (final T evs))) (g_delivered (gh (final T evs))).
+Proof.
+  unfold settled. set (n := length evs). intros H.
+  apply andb_prop in H as [H H3]. apply andb_prop in H as [_ H2]. apply andb_prop in H3 as [Hdead Hopen].
+  destruct (settle_tail_inv _ _ H2) as (d & Etl & Hd).
+  set (pre := firstn (n - 3) evs) in *.
+  assert (Eevs : evs = pre ++ tail d) by (rewrite <- Etl; unfold pre; symmetry; apply firstn_skipn).
+  destruct (final_TRK T pre) as ((_ & K2 & _ & _) & HO & _).
+  assert (Hal : is_dead (final T pre) = false) by (rewrite <- K2; apply negb_true_iff; exact Hdead).
+  assert (Hno : forall m, has_open m (prods (final T pre)) = false).
+  { intros m. destruct (HO Hal) as [_ C]. rewrite (proj1 (C m)). unfold is_open. destruct (k_open (trk_run trk0 pre)); [reflexivity|discriminate]. }
+  destruct (no_open_calm T pre Hal Hno) as [Hp Hq].
+  intros x Hx. rewrite Eevs in *. unfold off in Hx. rewrite tail_offers in Hx.
+  rewrite delivered_is_trace. apply (no_loss_progress_lemma T pre d Hd Hal Hp Hq). exact Hx.
+Qed.
+
+(* ---- C03: the whole trace monitor accepts the model's own trace of EVERY event list ----------------------- *)
+Lemma c03_walk_complete T evs : Case_C03.ok_walk (Case T evs (trace T evs)) = true.
+Proof.
+  unfold Case_C03.ok_walk.
+  destruct (walk3_run T evs [] m3_0) as (x' & W & [D1 D2]).
+  - split; reflexivity.
+  - intros _. split; [reflexivity|discriminate].
+  - cbn [app trk_run] in W. assert (E : final T [] = init T) by reflexivity. rewrite E in W. unfold trace. rewrite W. cbn [app] in *.
+    apply andb_true_intro. split.
+    + destruct (settled T evs) eqn:Es; [|reflexivity]. apply subset_of_incl.
+      rewrite (offered_args_final T evs), D1. apply settled_delivered. exact Es.
+    + destruct (own_thread evs) eqn:Eo; [|reflexivity]. cbn [andb].
+      destruct (nodupb (offered_args (trk_run trk0 evs))) eqn:En; [|reflexivity].
+      apply nodupb_nodup in En. rewrite (offered_args_final T evs) in En.
+      apply nodup_nodupb. rewrite D2, delivered_is_trace. apply exactly_once_nodup; [apply own_thread_no_fc; exact Eo|exact En].
+Qed.
+
+Lemma c03_monitor_complete T evs : Case_C03.ok (Case T evs (trace T evs)) = true.
+Proof.
+  unfold Case_C03.ok. rewrite csets_complete, ok_offered_complete, ok_once_complete, c03_walk_complete. reflexivity.
 Qed.
